@@ -99,6 +99,11 @@ func (fr *FnRun) checkSite(st *State, site ssa.Instruction, desc string) {
 			vars[k] = v
 		}
 		fr.bindLocalsAt(st, vars, site)
+		if _, isDefer := site.(*ssa.Defer); isDefer {
+			for kk, vv := range fr.pendingRet {
+				vars[kk] = vv
+			}
+		}
 		env := &Env{st: st, old: fr.entry, vars: vars, fr: fr}
 		for i, a := range sp.Asserts {
 			d := a.Label
@@ -167,6 +172,14 @@ func (fr *FnRun) checkSitesExist(st *State) {
 	}
 	for _, sp := range fr.ctr.Sites {
 		found := len(fr.matchingSites(sp)) > 0
+		if sp.Forbidden {
+			g := tTrue
+			if found {
+				g = tFalse
+			}
+			fr.oblige(st, "no-call", sp.Pattern, g, nil, "the function makes no call matching "+sp.Pattern)
+			continue
+		}
 		if found {
 			fr.oblige(st, "site-exists", sp.Pattern, tTrue, nil, "a call matching "+sp.Pattern+" exists")
 		} else {
@@ -716,7 +729,7 @@ func (fr *FnRun) applyContract(st *State, site ssa.Instruction, ctr *Contract, f
 	if len(results) == 1 {
 		post["result"] = results[0]
 	}
-	penv := &Env{st: st, old: old, vars: post, fr: fr, pkg: ctr.Pkg, args: vars}
+	penv := &Env{st: st, old: old, vars: post, fr: fr, pkg: ctr.Pkg, args: vars, assuming: true}
 	fr.bindLets(st, ctr, penv)
 	// alias clauses `res == E` for reference-typed results bind the result instead of being assumed
 	skip := map[*Clause]bool{}
@@ -947,6 +960,11 @@ func (fr *FnRun) runDefers(st *State, depth int, k func(st *State)) {
 	}
 	d := st.defers[len(st.defers)-1]
 	st.defers = st.defers[:len(st.defers)-1 : len(st.defers)-1]
+	// callsite assertions on a deferred call are checked when it RUNS (the state immediately before
+	// the deferred call, with the pending results of the function in scope)
+	if d.site != nil {
+		fr.checkCallSite(st, d.site, d.call)
+	}
 	fr.callVal(st, nil, d.call, d.fnv, d.args, depth, func(st2 *State, _ Val) {
 		fr.runDefers(st2, depth, k)
 	})
